@@ -17,6 +17,10 @@ use crate::streams::zone::{gen_zone, query_name, GenZone, QTYPES};
 use crate::Out;
 
 const BIN: &str = "/verif/build/repo-target/debug/resolved";
+const BIN_RELEASE: &str = "/verif/build/repo-target/release/resolved";
+/// which build of the server the streams start (the deep-message stream needs the release profile, the
+/// one the stack-depth clause of C03 is about)
+static USE_RELEASE: std::sync::atomic::AtomicBool = std::sync::atomic::AtomicBool::new(false);
 
 /// ports private to this harness process (several shards run concurrently): a block of 16 ports
 /// derived from the pid, walked round-robin, each checked to be free for UDP and TCP
@@ -55,7 +59,7 @@ impl Server {
         let port = free_port();
         let mport = free_port();
         let addr: SocketAddr = format!("127.0.0.1:{port}").parse().unwrap();
-        let mut cmd = Command::new(BIN);
+        let mut cmd = Command::new(if USE_RELEASE.load(std::sync::atomic::Ordering::SeqCst) { BIN_RELEASE } else { BIN });
         cmd.arg("-i").arg(addr.to_string()).arg("--metrics-address").arg(format!("127.0.0.1:{mport}"));
         cmd.args(args);
         cmd.env("RUST_LOG", "info").env("RUST_LOG_FORMAT", "no-ansi,no-time");
@@ -1425,4 +1429,43 @@ pub fn run_reload_live(r: &mut Rng, n: usize, out: &mut Out) {
         }
         let _ = std::fs::remove_dir_all(&dir);
     }
+}
+
+
+// ---------------------------------------------------------------------------------------------
+// the deepest legal compression-pointer chain, sent to the RELEASE build of the server over TCP
+
+/// C03 "without overflowing the stack of a server worker thread": the release binary gets the message
+/// with the longest strictly-backwards pointer chain (about 8180 hops, 16 KiB) over TCP, and a few
+/// shorter ones; it must answer each (the message is well formed) and stay up.
+pub fn run_server_deep(out: &mut Out) {
+    USE_RELEASE.store(true, std::sync::atomic::Ordering::SeqCst);
+    let dir = scratch("deep");
+    std::fs::write(dir.join("z.zone"), "$ORIGIN deep.test.\n@ IN SOA ns admin 1 2 3 4 60\n").unwrap();
+    let args: Vec<String> = vec!["--authoritative-only".into(), "-z".into(), dir.join("z.zone").to_string_lossy().into_owned()];
+    let Some(server) = Server::start(&args) else {
+        out.case(&["server.start", "deep"], "failed");
+        USE_RELEASE.store(false, std::sync::atomic::Ordering::SeqCst);
+        return;
+    };
+    for depth in [10usize, 2000, 5000, 8180] {
+        let bytes = crate::streams::wire::deep_chain(depth);
+        let mut wire = (bytes.len() as u16).to_be_bytes().to_vec();
+        wire.extend_from_slice(&bytes);
+        let resp = server.tcp_once(&wire, false);
+        std::thread::sleep(Duration::from_millis(50));
+        let alive = server.alive() && server.udp_once(&probe_query(9), Duration::from_secs(2)).is_some();
+        let text = match (&resp, alive) {
+            (_, false) => "server-died".to_string(),
+            (Some(b), true) if b.len() >= 14 => format!("replied rcode{}", b[5] & 15),
+            _ => "noreply".to_string(),
+        };
+        out.case(&["server.deep", &depth.to_string()], &text);
+        if !alive {
+            break;
+        }
+    }
+    drop(server);
+    let _ = std::fs::remove_dir_all(&dir);
+    USE_RELEASE.store(false, std::sync::atomic::Ordering::SeqCst);
 }
